@@ -133,6 +133,8 @@ func infer(p *Prog) inference {
 				if len(e.Args) > len(callee.Params) {
 					invalid("too many arguments")
 				}
+			case isNat && nat.NotFunc != "":
+				invalid("native entry is not a function")
 			case isNat:
 				if !nat.Variadic && len(e.Args) > nat.In {
 					invalid("too many arguments")
